@@ -122,6 +122,10 @@ def _subst_term(t, old, new):
 
 def run(ctx):
     model = ctx.model
+    from .. import roles as _rm3
+    shared.r_nocfg(ctx, "R04.nocfg", _rm3.get(model).release_op,
+                   "a released nameplate keeps its row under the other setting and is never "
+                   "handed out again")
     shared.r_lookup(ctx, "R04.lookup", ("nameplates", "nameplate_sides"))
     ctx.rule("R04.src", "the allocator's in-use set is the names of all nameplates rows "
              "of the own app (unfiltered, not the listing-gated accessor)")
